@@ -20,8 +20,9 @@ def api_result(text, bg, mode, premium):
     return _API_MEMO[k]
 
 
-def _cause(sheet, idx, item, adjusted_sels, ob, eff=None, ignore_drop=False):
-    """Structural cause of a report/file disagreement for rule #idx (used only to key known findings)."""
+def _cause(sheet, idx, item, card_of, ob, eff=None, ignore_drop=False):
+    """Structural cause of a report/file disagreement for rule #idx (used only to key known findings).
+    card_of: {rule index: its report card}."""
     sel = sheet.rules[idx][0]
     tv = item.last("color")
     tval = tv[1] if tv else ""
@@ -32,15 +33,18 @@ def _cause(sheet, idx, item, adjusted_sels, ob, eff=None, ignore_drop=False):
         return "file_dropped/" + item.kind
     vn = O.var_name(tval)
     if vn:
-        users = [s for (s, it, _w) in sheet.rules if it.last("color") and O.var_name(it.last("color")[1]) in (vn,) + _chain(sheet, vn)
-                 or (it.last("color") and vn in _chain(sheet, O.var_name(it.last("color")[1])))]
-        users_adj = [s for s in users if s in adjusted_sels]
+        def uses(it2):
+            c2 = it2.last("color")
+            n2 = O.var_name(c2[1]) if c2 else None
+            return bool(n2) and (n2 == vn or n2 in _chain(sheet, vn) or vn in _chain(sheet, n2))
+
+        users = [j for j, (_s, it2, _w) in enumerate(sheet.rules) if uses(it2)]
+        users_adj = [j for j in users if j in card_of]
         if len(users_adj) >= 2:
             # the specific mechanism: this rule's written colour, or the colour it was re-tuned from, is another
             # adjusted user's reported result (the shared definition was adjusted once per user)
-            cards = {c["selector"]: c for c in (ob["cards"] or [])}
-            others = [O.colour_key(cards[s2]["after"]) for s2 in users_adj if s2 != sel and s2 in cards]
-            mine = cards.get(sel)
+            others = [O.colour_key(card_of[j]["after"]) for j in users_adj if j != idx]
+            mine = card_of.get(idx)
             if (eff is not None and O.colour_key(eff) in others) or (mine and O.colour_key(mine["before"]) in others):
                 return "shared_property_readjusted"
             return "shared_property_other/" + item.kind
@@ -100,18 +104,62 @@ def judge_obs(sheet, settings, ob):
     coloured = [(i, sel, it) for i, (sel, it, _w) in enumerate(sheet.rules) if it.has_text_colour()]
     cards = ob["cards"] or []
     counts = ob["counts"]
-    card_by_sel = {}
+    by_sel_out, defs_out = (O.output_model(ob["out_text"]) if ob["out_text"] is not None else ({}, {}))
+    by_sel_in, _ = O.output_model(sheet.text)
+    # selectors are compared by token value; several rules may carry the same selector (a base rule and an override)
+    key_of = {i: O.sel_key(sel) for i, sel, _it in coloured}
+    remaining = {}
+    for i, _sel, _it in coloured:
+        remaining[key_of[i]] = remaining.get(key_of[i], 0) + 1
+    occ = {}
+    for i, _sel, _it in coloured:            # position of the rule among the input rules with the same selector
+        k = key_of[i]
+        occ[i] = len(by_sel_in.get(k, [])) - remaining[k]
+        remaining[k] -= 1
+    resolved = {}
+    for i, sel, it in coloured:
+        tdecl, bdecl = it.last("color"), it.last("background-color")
+        t_in = O.resolve(tdecl[1], defs_in)
+        b_in = O.resolve(bdecl[1], defs_in) if bdecl else default_bg
+        resolved[i] = (t_in, b_in)
+    # ---- match report cards and 'Could not tune' lines to rules
     for c in cards:
-        card_by_sel.setdefault(c["selector"], []).append(c)
-    listed_sels = [s for _f, s in ob["listed"]]
+        c["key"] = O.sel_key(c["selector"])
+    unused = list(cards)
+    card_of = {}
+
+    def take(i, pred):
+        for c in unused:
+            if c["key"] == key_of[i] and pred(c):
+                unused.remove(c)
+                card_of[i] = c
+                return True
+        return False
+
+    for i, _sel, _it in coloured:            # exact: same selector, background and original colour
+        t_in, b_in = resolved[i]
+        take(i, lambda c: O.colour_key(c["bg"]) == O.colour_key(b_in) and O.colour_key(c["before"]) == O.colour_key(t_in))
+    for i, _sel, _it in coloured:            # same selector and background (a shared property re-tuned from an adjusted value)
+        if i not in card_of:
+            take(i, lambda c: O.colour_key(c["bg"]) == O.colour_key(resolved[i][1]))
+    for i, _sel, _it in coloured:
+        if i not in card_of and sum(1 for j in key_of if key_of[j] == key_of[i]) == 1:
+            take(i, lambda c: True)         # unique selector: whatever the card says belongs to this rule
+    listed_keys = [O.sel_key(s) for _f, s in ob["listed"]]
+    listed_left = list(listed_keys)
+    listed_rules = set()
+    for i, _sel, _it in coloured:
+        if i not in card_of and key_of[i] in listed_left:
+            listed_left.remove(key_of[i])
+            listed_rules.add(i)
     # ---- (1) accounting
     if len(cards) != counts["tuned"]:
         v("accounting/cards_vs_adjusted_count", "%d report cards but '%d color pairs adjusted'" % (len(cards), counts["tuned"]))
-    if len(listed_sels) != counts["failed"]:
-        v("accounting/listed_vs_failed_count", "%d rules listed under 'Could not tune' but '%d need your attention'" % (len(listed_sels), counts["failed"]))
+    if len(listed_keys) != counts["failed"]:
+        v("accounting/listed_vs_failed_count", "%d rules listed under 'Could not tune' but '%d need your attention'" % (len(listed_keys), counts["failed"]))
     total = counts["accessible"] + counts["tuned"] + counts["failed"]
     if total != len(coloured):
-        missing = [(sel, it.kind) for _i, sel, it in coloured if sel not in card_by_sel and sel not in listed_sels]
+        missing = [(sel, it.kind) for i, sel, it in coloured if i not in card_of and i not in listed_rules]
         junk = any(any(isinstance(d, str) and not d.startswith("/*") for d in it.decls) for _, it, _ in sheet.rules)
         cause = ("file_dropped/invalid_declaration_in_reserialised_rule"
                  if (ob["out_text"] is None and junk and "Can not serialize <ParseError" in ob["res"]["stderr"])
@@ -119,36 +167,50 @@ def judge_obs(sheet, settings, ob):
         v("accounting/rules_not_counted_once/" + cause,
           "the three counters add up to %d but %d rules have a text colour (accessible=%d adjusted=%d attention=%d; uncategorised candidates: %s)"
           % (total, len(coloured), counts["accessible"], counts["tuned"], counts["failed"], missing[:4]))
-    known = {sel for _i, sel, _it in coloured}
-    for sel, cs in card_by_sel.items():
-        if len(cs) > 1 or sel in listed_sels:
-            v("accounting/rule_in_two_categories", "rule %s appears in more than one category / card" % sel)
-        if sel not in known:
-            v("accounting/card_for_unknown_rule", "report card for %r, which is not a rule with a text colour" % sel)
-    adjusted_sels = set(card_by_sel)
-    by_sel_out, defs_out = (O.output_model(ob["out_text"]) if ob["out_text"] is not None else ({}, {}))
-    by_sel_in, _ = O.output_model(sheet.text)
+    all_keys = set(key_of.values())
+    for c in unused:
+        if c["key"] in all_keys:
+            v("accounting/rule_in_two_categories", "a second report card (%s, %s -> %s on %s) for a rule that already has one, or a card whose colours "
+              "belong to no rule with that selector" % (c["selector"], c["before"], c["after"], c["bg"]))
+        else:
+            v("accounting/card_for_unknown_rule", "report card for %r, which is not a rule with a text colour" % c["selector"])
+    for k in listed_left:
+        v("accounting/rule_in_two_categories" if k in all_keys else "accounting/listed_unknown_rule",
+          "'Could not tune' lists a selector that is adjusted as well, or that no rule with a text colour carries")
+
+    def rule_decls(table, i):
+        rules = table.get(key_of[i], [])
+        if len(rules) == len(by_sel_in.get(key_of[i], [])) and 0 <= occ[i] < len(rules):
+            return rules[occ[i]][0]
+        return None
+
+    def effective(i):
+        d = None
+        ds = rule_decls(by_sel_out, i)
+        if ds is not None:
+            d = O.last_decl(ds, "color")
+        elif key_of[i] in by_sel_out:
+            d = _colour_decl(by_sel_out[key_of[i]])
+        return O.resolve(css_tokens.serialize_value(d[2]), defs_out) if d is not None else None
+
     accessible_n = 0
     for i, sel, it in coloured:
-        tdecl, bdecl = it.last("color"), it.last("background-color")
-        t_in = O.resolve(tdecl[1], defs_in)
-        b_in = O.resolve(bdecl[1], defs_in) if bdecl else default_bg
+        t_in, b_in = resolved[i]
         bg_rgb = O.opaque_rgb(b_in, (255, 255, 255)) if b_in else None
-        if sel in card_by_sel:
-            card = card_by_sel[sel][0]
+        if i in card_of:
+            card = card_of[i]
             after = card["after"]
             cause = None
             # (2a) the written file carries the reported colour
-            eff = None
-            if ob["out_text"] is not None and sel in by_sel_out:
-                d = _colour_decl(by_sel_out[sel])
-                if d is not None:
-                    eff = O.resolve(css_tokens.serialize_value(d[2]), defs_out)
+            eff = effective(i) if ob["out_text"] is not None else None
             if eff is None or O.colour_key(eff) is None or O.colour_key(eff) != O.colour_key(after):
-                cause = _cause(sheet, i, it, adjusted_sels, ob, eff)
+                cause = _cause(sheet, i, it, card_of, ob, eff)
                 v("reported_not_written/" + cause,
                   "%s reported adjusted %s -> %s, but the written file sets it to %r" % (sel, card["before"], after, eff if ob["out_text"] is not None else "<no output file>"),
                   observed=eff, expected=after)
+            # the card must describe this rule's own background
+            if O.colour_key(card["bg"]) is not None and O.colour_key(b_in) is not None and O.colour_key(card["bg"]) != O.colour_key(b_in):
+                v("reported_wrong_background/" + it.kind, "%s: the report shows background %s, the rule's background is %s" % (sel, card["bg"], b_in))
             # (2b) API agreement and target
             if t_in is not None and b_in is not None and O.colour_key(t_in) is not None and O.colour_key(b_in) is not None:
                 api = api_result(t_in, b_in, mode, premium)
@@ -156,7 +218,7 @@ def judge_obs(sheet, settings, ob):
                 rep_rgb = O.opaque_rgb(after, bg_rgb)
                 if api_rgb is not None and rep_rgb is not None and api_rgb != rep_rgb:
                     # the API disagreement is about what the rule was tuned *from*, whether or not the file was written
-                    cause = _cause(sheet, i, it, adjusted_sels, ob, eff, ignore_drop=True)
+                    cause = _cause(sheet, i, it, card_of, ob, eff, ignore_drop=True)
                     v("reported_differs_from_api/" + cause,
                       "%s (%s on %s): reported %s, ColorPair(...).make_readable(mode=%d, very_readable=%s) returns %r"
                       % (sel, t_in, b_in, after, mode, premium, api[0]), observed=after, expected=api[0])
@@ -165,23 +227,23 @@ def judge_obs(sheet, settings, ob):
                     if m is False:
                         v("reported_below_target/" + (cause or it.kind), "%s: reported colour %s has ratio %.3f against %s, target %.1f"
                           % (sel, after, wcag.ratio(rep_rgb, bg_rgb), b_in, target))
-        elif sel in listed_sels:
+        elif i in listed_rules:
             # (4) listed and left unchanged
             if ob["out_text"] is not None:
-                a = by_sel_in.get(sel)
-                b = by_sel_out.get(sel)
+                a = rule_decls(by_sel_in, i)
+                b = rule_decls(by_sel_out, i)
                 # custom-property definitions may legitimately change (another, adjusted rule references them)
-                if a is None or b is None or [_decl_tree(x[0], True) for x in a] != [_decl_tree(x[0], True) for x in b]:
+                if a is None or b is None or _decl_tree(a, True) != _decl_tree(b, True):
                     v("attention_rule_changed/" + it.kind, "%s needs attention but its declarations changed in the written file" % sel)
         else:
             accessible_n += 1
             # (3) counted as already readable: really meets the target
             # judged on what the written file says (a custom property adjusted for an earlier rule makes later users readable)
             t_eff = t_in
-            if ob["out_text"] is not None and sel in by_sel_out:
-                d = _colour_decl(by_sel_out[sel])
-                if d is not None:
-                    t_eff = O.resolve(css_tokens.serialize_value(d[2]), defs_out)
+            if ob["out_text"] is not None:
+                e2 = effective(i)
+                if e2 is not None:
+                    t_eff = e2
             t_rgb = O.opaque_rgb(t_eff, bg_rgb) if (t_eff and bg_rgb) else None
             if t_rgb is None or bg_rgb is None:
                 if total == len(coloured):
@@ -189,7 +251,7 @@ def judge_obs(sheet, settings, ob):
             else:
                 m = wcag.meets(wcag.ratio(t_rgb, bg_rgb), target)
                 if m is False and total == len(coloured):
-                    c2 = _cause(sheet, i, it, adjusted_sels, ob, t_eff)
+                    c2 = _cause(sheet, i, it, card_of, ob, t_eff)
                     v("accessible_below_target/" + (c2 if ("shared_property_readjusted" == c2 or c2.startswith("file_dropped/invalid")) else it.kind), "%s (%s on %s in the written file) counted as already readable, ratio %.3f < %.1f"
                       % (sel, t_eff, b_in, wcag.ratio(t_rgb, bg_rgb), target))
     if total == len(coloured) and accessible_n != counts["accessible"]:
